@@ -23,8 +23,8 @@ Proof.
   unfold QInv. intros Hok HC Hasg V H. destruct o; cbn [step] in H.
   - exact (on_new_worker_QI (s, []) _ _ _ V H).
   - destruct (find_proc _ w); [|discriminate]. exact (on_remove_worker_QI (s, []) _ _ _ _ _ _ Hok HC Hasg V H).
-  - exact (handle_submit_array_QI (s, []) _ _ _ _ _ _ _ _ _ V H).
-  - destruct (bad_graph_rq _ _); [inversion H; subst; exact V|]. exact (handle_submit_graph_QI (s, []) _ _ _ _ _ V H).
+  - destruct (bad_submit_lengths _ _); [inversion H; subst; exact V|]. exact (handle_submit_array_QI (s, []) _ _ _ _ _ _ _ _ _ V H).
+  - destruct (bad_graph_rq _ _); [inversion H; subst; exact V|]. destruct (dead_dep _ _ _); [inversion H; subst; exact V|]. exact (handle_submit_graph_QI (s, []) _ _ _ _ _ V H).
   - exact (handle_open_QI (s, []) _ _ V H).
   - exact (handle_close_QI (s, []) _ _ V H).
   - exact (handle_cancel_QI (s, []) _ _ Hok HC V H).
